@@ -30,7 +30,7 @@ struct Conn {
     uint64_t readChunk = 0, readPaceUs = 0; bool readStopped = false; bool readTimerArmed = false;
     uint64_t totS2P = 0, totP2S = 0;
     // peer -> squid
-    Bytes pout; size_t poutOff = 0; SegMode seg = SEG_RAND; uint64_t segMax = 0; std::vector<uint64_t> segAt; uint64_t segBase = 0; uint64_t paceLo = 0, paceHi = 0;
+    Bytes pout; size_t poutOff = 0; SegMode seg = SEG_RAND; uint64_t segMax = 0; std::vector<uint64_t> segAt; uint64_t segBase = 0; uint64_t nextSeg = 0; uint64_t paceLo = 0, paceHi = 0;
     std::deque<Seg> p2s; uint64_t p2sBytes = 0, p2sLastAt = 0;
     Bytes srx; size_t srxOff = 0;
     bool sqEof = false, sqRst = false;
@@ -48,6 +48,7 @@ struct SockEnt {
     std::deque<Dgram> dgrams;
     bool lingerReset = false;
     int pairOther = -1;
+    bool canRead = true, canWrite = true; // pipe ends are one-way
 };
 
 struct Proc {
@@ -78,6 +79,7 @@ struct Net {
     std::vector<Conn *> conns; std::vector<Proc *> procs;
     std::multimap<std::pair<uint64_t, uint64_t>, std::function<void()>> events; uint64_t evSeq = 0;
     int pendingPair[2] = {-1, -1};
+    std::vector<std::pair<int, int>> pendingPipes;
     int nextEphemeral = 40000; int nextPid = 5000;
     uint64_t clientsDoneAt = 0; bool clientsDone = false;
     Addr squidIp;
@@ -87,6 +89,7 @@ struct Net {
     SockEnt *sock(int fd) { auto i = socks.find(fd); return i == socks.end() ? nullptr : i->second; }
     void newSocket(int fd, int domain, int type);
     void newPair(int a, int b);
+    void newPipe(int r, int w);
     void newEpoll(int fd) { epolls[fd]; }
     bool isEpoll(int fd) const { return epolls.count(fd) != 0; }
     int bind(SockEnt *s, const Addr &a);
